@@ -106,6 +106,14 @@ CHECKS.update({
             "multicast destinations are checked never to be CON.",
             TB + "Don't-care cells (CON with reserved/signalling code; CON requests received on multicast) are excluded from the table comparison but still checked for invariants.",
             "DESIGN.md 6/C10"),
+    "C17": ("model_checking", E1 + "; " + E3,
+            "Every configuration of a closed family (all sets of <= 3 resources at paths of length <= 3 over {a,b,''}, 0-2 nested sites "
+            "incl. a second level and prefix-overlapping pairs, path-capable leaves, resources with rt/if/ct attributes and a hidden one) "
+            "is built as a real Site and receives all 121 request paths of length <= 4 through Context.render_to_pipe: the handler that ran, "
+            "the stripped path it saw and the URI it reconstructs are compared with a longest-proper-prefix model; the parsed "
+            "/.well-known/core listing and 16 single-criterion filters are compared with the model's subset; add/remove histories of "
+            "length <= 3 are followed by a full routing sweep after every step.",
+            TB + "Quick explores a seed-rotated 1/7 of the 3-resource sets.", "DESIGN.md 6/C17"),
     "C18": ("model_checking", E2 + " (the deviation is shutdown at every step)", C18TXT,
             TB + "K=1 (quick, +K=2 on three scenarios), K=2 (thorough).", "DESIGN.md 6/C18"),
     "C14": ("model_checking", E2,
